@@ -2,7 +2,7 @@
 # copy behaviour-preserving changes delivered by sub-agents (/tmp/wr/cXX/BENIGN/<id>/) into /verif/benign/<id>/
 for d in /tmp/wr/c*/BENIGN/C*-b* /tmp/wr/c*_scratch/BENIGN/C*-b*; do
   [ -f $d/patch.diff ] || continue
-  n=$(basename $d)
+  n=$(basename $d); [ -f /verif/benign/$n/patch.orig.diff ] && continue   # rebased by hand: keep
   mkdir -p /verif/benign/$n
   cp $d/patch.diff $d/meta.json /verif/benign/$n/ 2>/dev/null
   [ -f $d/equiv.py ] && cp $d/equiv.py /verif/benign/$n/
